@@ -286,11 +286,11 @@ PROPS["C09"] = {
           what="robust set, capacity 3", bounds="unwind 5; 4 steps"),
         H("c09::sched::c09_s_uis_race_cap2", crate="hs", covers=2, timeout=2400, mem_gb=14, tiers=("quick",),
           what="two threads racing acquire/release on the real free list; exclusivity, bounds, legitimate failures, "
-               "leak freedom; ABA shape witnessed", bounds="unwind 6; capacity 2, 1 outer operation (any of its scheduling points), up to 3 inner operations (one may run before)"),
+               "leak freedom; ABA shape witnessed", bounds="unwind 5; capacity 2, 1 outer operation (acquire, or release of an index held before the race) preempted at any scheduling point, up to 2 inner operations (one may run before)"),
         H("c09::sched::c09_s_uis_race_cap2_lock", crate="hs", covers=2, timeout=2400, mem_gb=14, tiers=("quick",),
           what="same race with every release in LockIfLastIndex mode: Locked reported iff the set is locked afterwards, "
                "no acquire succeeds after a reported lock, the last release locks",
-          bounds="unwind 6; capacity 2, 1 outer operation (any of its scheduling points), up to 3 inner operations (one may run before)"),
+          bounds="unwind 5; capacity 2, 1 outer operation (acquire, or release of an index held before the race) preempted at any scheduling point, up to 2 inner operations (one may run before)"),
         H("c09::sched::c09_s_uis_race_cap2_lock_deep", crate="hs", covers=2, timeout=7200, mem_gb=30, tiers=("thorough",),
           what="lock-if-last race, 2 outer / 3 inner operations", bounds="unwind 6"),
         H("c09::sched::c09_s_robust_recover_race", crate="hs", covers=2, timeout=2400, mem_gb=12, tiers=("quick",),
@@ -319,19 +319,23 @@ PROPS["C12"] = {
         H("c12::c12_seq_store_load", covers=0, timeout=900, mem_gb=4,
           what="sequential: store (both flavours) / load round trip, unpublished write invisible, single producer",
           bounds="unwind 10; 3 stores"),
-        H("c12::c12_seq_raw_layout", covers=1, timeout=1500, mem_gb=6,
-          what="raw management API with symbolic size/alignment/misalignment: cells aligned, disjoint, inside the "
-               "computed size; raw store/load round trip", bounds="unwind 14; size<=12, align<=8, misalign<8"),
+        H("c12::c12_seq_raw_layout_align1", covers=1, timeout=1500, mem_gb=8,
+          what="raw management API (run-time type details), alignment 1: cells aligned, disjoint, inside the computed "
+               "size; raw store/load round trip", bounds="unwind 14; size 1..=3, misalign<8"),
+        H("c12::c12_seq_raw_layout_align4", covers=1, timeout=1500, mem_gb=8,
+          what="same, alignment 4", bounds="unwind 14; size 4/8/12, misalign<8"),
+        H("c12::c12_seq_raw_layout_align8", covers=1, timeout=1500, mem_gb=8,
+          what="same, alignment 8", bounds="unwind 14; size 8, misalign<8"),
         H("c12::sched::c12_s_reader_outer", crate="hs", covers=3, timeout=1800, mem_gb=10, tiers=("quick",),
           what="reader preempted at every shared operation and in the middle of its copy; writer runs complete stores: "
-               "no torn value, monotone, not older than completed stores", bounds="unwind 10; 2 loads, <=2 stores"),
+               "no torn value, monotone, not older than completed stores", bounds="unwind 6; 2 loads, <=2 writer actions (store / write loan / publish loan)"),
         H("c12::sched::c12_s_writer_outer", crate="hs", covers=1, timeout=1800, mem_gb=10, tiers=("quick",),
           what="writer preempted at every shared operation; reader runs complete loads inside the stores",
-          bounds="unwind 10; 2 stores, <=2 loads"),
+          bounds="unwind 6; 1 store (copy or two-step), <=2 loads"),
         H("c12::sched::c12_s_reader_outer_deep", crate="hs", covers=3, timeout=7200, mem_gb=16, tiers=("thorough",),
-          what="2 loads, <=3 stores", bounds="unwind 10"),
+          what="2 loads, <=3 writer actions", bounds="unwind 7"),
         H("c12::sched::c12_s_writer_outer_deep", crate="hs", covers=1, timeout=7200, mem_gb=16, tiers=("thorough",),
-          what="3 stores, <=3 loads", bounds="unwind 10"),
+          what="2 stores, <=2 loads", bounds="unwind 7"),
         H("c12::sched::c12_s_single_writer_race", crate="hs", covers=2, timeout=900, mem_gb=4,
           what="two threads racing acquire_producer never both succeed", bounds="unwind 6"),
     ],
